@@ -161,6 +161,9 @@ func (w *wrap12) AllocateMemory(cb *loader.AllocationCallbacks, o core1_0.Memory
 
 var discardLogger = slog.New(slog.DiscardHandler)
 
+// capacity of simvk's object tables for a history's allocator (bounds FINDBUF/FINDIMG ops per history)
+const findTableSize = 1 << 13
+
 type world struct {
 	c     cfg
 	sim   *simvk.Device
@@ -179,7 +182,7 @@ func apiVersion(api int) common.APIVersion {
 }
 
 // newWorld creates a simulated device with the configured memory-type table and a REAL vam.Allocator on it.
-func newWorld(c cfg, log bool) (*world, error) {
+func newWorld(c cfg, log bool, tableSize int) (*world, error) {
 	sc := simvk.Config{
 		API:           c.api,
 		Types:         append([]simvk.TypeCfg(nil), c.types...),
@@ -188,7 +191,7 @@ func newWorld(c cfg, log bool) (*world, error) {
 		MaxAllocCount: 4096,
 		Integrated:    c.integrated,
 		Log:           log,
-		TableSize:     64,
+		TableSize:     tableSize,
 	}
 	for _, h := range c.heaps {
 		sc.Heaps = append(sc.Heaps, simvk.HeapCfg{Size: h})
@@ -376,7 +379,7 @@ func (w *world) exec(o op) outcome {
 	var out outcome
 	out.idx = -1
 	if o.name == "NEW" {
-		nw, err := newWorld(w.c, false)
+		nw, err := newWorld(w.c, false, findTableSize)
 		if err != nil {
 			out.kind = "err"
 			out.vk = simvk.ResUnknown
@@ -408,7 +411,7 @@ func (w *world) exec(o op) outcome {
 		out.kind = "skip"
 		return out
 	}
-	fw, err := newWorld(w.c, true)
+	fw, err := newWorld(w.c, true, 64)
 	if err != nil {
 		out.kind = "skip"
 		return out
